@@ -145,7 +145,7 @@ def main(argv):
         r = results[u["name"]]
         row = {"unit": u["name"], "status": r["status"], "function_under_contract": u.get("enforce"),
                "callees_replaced_by_contract": u["replace"], "loop_contracts": bool(u["loops"]),
-               "backend": "cbmc-6.11 SAT (minisat)" if not u["solver"] else "cbmc-6.11 " + u["solver"],
+               "backend": "native exhaustive enumeration (gcc -O2 on the repo code; not CBMC)" if u.get("native") else ("cbmc-6.11 SAT (minisat)" if not u["solver"] else "cbmc-6.11 " + u["solver"]),
                "solver_s": r.get("solver_s"), "wall_s": r.get("wall"), "cached_result": r.get("cached", False),
                "unwind": u["unwind"], "bounded": u["bounded"], "obligations": 0, "discharged": 0}
         for a_ in u["assumes"]:
@@ -188,8 +188,12 @@ def main(argv):
                 else:
                     violations.append((u, o))
         unit_rows.append(row)
+    printed = set()
     for k, u, o in known_hits:
-        print("KNOWN-FINDING: property=%s %s %s" % (prop, (k.get("tag") or o["id"]), k["what"]))
+        line = "KNOWN-FINDING: property=%s %s %s" % (prop, (k.get("tag") or o["id"]), k["what"])
+        if line not in printed:
+            printed.add(line)
+            print(line)
     rc = 0
     vio_lines = []
     seen = set()
